@@ -48,12 +48,15 @@ impl<'a> ParserBuilder<'a> {
         let psess = self.psess.ok_or(ParserError::NoParseSess)?;
         let input = self.input.ok_or(ParserError::NoInput)?;
 
-        let parser = match Self::parser(psess.inner(), input) {
-            Ok(p) => p,
-            Err(diagnostics) => {
+        // The lexer reports some errors (an unterminated string or block comment, a file
+        // that is not valid UTF-8) by raising a fatal error, i.e. by unwinding.
+        let parser = match catch_unwind(AssertUnwindSafe(|| Self::parser(psess.inner(), input))) {
+            Ok(Ok(p)) => p,
+            Ok(Err(diagnostics)) => {
                 psess.emit_diagnostics(diagnostics);
                 return Err(ParserError::ParserCreationError);
             }
+            Err(..) => return Err(ParserError::ParserCreationError),
         };
 
         Ok(Parser { parser })
